@@ -148,7 +148,7 @@ SPECS["C14"] = dict(
         dict(name="c14-" + tagname(tg), pkg=".", tags=tg, tests=[
             dict(id="registry", run="^TestC14Registry$", quick=dict(shards=4, checks=1500, timeout=300, steps=40),
                  thorough=dict(shards=8, checks=25000, timeout=1800, steps=60)),
-            dict(id="rowboundary", run="^TestC14RowBoundary$", quick=dict(shards=2, checks=6, timeout=300),
+            dict(id="rowboundary", run="^TestC14RowBoundary$", quick=dict(shards=4, checks=12, timeout=300),
                  thorough=dict(shards=4, checks=150, timeout=1800)),
         ]) for tg in ["", "gc_opt"]
     ],
@@ -249,4 +249,29 @@ SPECS["C03"] = dict(
             dict(id="exhaustive", run="^TestC03WakeExhaustive$", rapid=False, quick=dict(shards=2, timeout=400), thorough=dict(shards=8, timeout=3000)),
         ]) for tg in ["", "poll_opt"]
     ],
+)
+
+FX_OVERLAY = ["verifx/fx", "verifx/vio"]
+ENGINE_ASSUME = ["loop-back TCP / Unix sockets on this machine; kernel segmentation is whatever the kernel does (the oracles hold for any segmentation)",
+                 "a liveness clause is judged by the stall rule: no progress for 8 s on an otherwise idle engine, confirmed by re-running the same case"]
+
+def engine_jobs(name, pkg, tests_quick_thorough, tagsets_quick=TAGSETS_QUICK, race=False):
+    jobs = []
+    for tg in TAGSETS_ALL:
+        jobs.append(dict(name="%s-%s" % (name, tagname(tg)), pkg=pkg, tags=tg, race=race, thorough_only=(tg not in tagsets_quick), tests=tests_quick_thorough))
+    return jobs
+
+SPECS["C01"] = dict(
+    level="exploration",
+    technique="property-based testing of real engine sessions (rapid): generated peer segmentations and handler consumption scripts against a position-dependent stream-content oracle and a conservation invariant",
+    rule="a case is one engine configuration (tcp4/tcp6/unix x server/client(dial|enroll) x LT/ET/ET+chunk x 1..8 loops x reactor/reuseport x buffer caps) with 1..4 connections, each with a generated peer script "
+         "(segments of 1..262144 bytes around the read-buffer size, gaps none/lock-step/sleep, ending close / half-close / handler-close) and a cyclic handler script over Peek/Discard/Peek+Discard/Next/Read/WriteTo(scripted writer); "
+         "inside every callback: buffered bytes = stream[consumed:], consumed+InboundBuffered is conserved by every operation, never decreases and never exceeds what the peer sent; at OnClose after an orderly close everything sent was consumed or readable; "
+         "non-trivial = a connection on which a callback left bytes unconsumed that a later callback (with new data) saw (leftover/stitching path); distinct = distinct (configuration, connection script)",
+    assumptions=ENGINE_ASSUME,
+    overlay=["verifx/c01"] + FX_OVERLAY,
+    max_parallel=12,
+    jobs=engine_jobs("c01", "./verifx/c01", [
+        dict(id="sessions", run="^TestC01Sessions$", quick=dict(shards=6, checks=400, timeout=400, shrinktime=30), thorough=dict(shards=4, checks=15000, timeout=3000, shrinktime=300)),
+    ]),
 )
